@@ -464,7 +464,7 @@ func vConstantValue(v reflect.Value) (c constant.Value) {
 	return
 }
 
-// constValue returns the exact constant value of a number, or nil.
+// constValue returns the exact constant value of a number, a string or a boolean, or nil.
 func constValue(v reflect.Value) constant.Value {
 	if !v.IsValid() {
 		return nil
@@ -481,6 +481,10 @@ func constValue(v reflect.Value) constant.Value {
 	case isComplex(t):
 		re, im := constant.MakeFloat64(real(v.Complex())), constant.MakeFloat64(imag(v.Complex()))
 		return constant.BinaryOp(re, token.ADD, constant.MakeImag(im))
+	case isString(t):
+		return constant.MakeString(v.String())
+	case isBoolean(t):
+		return constant.MakeBool(v.Bool())
 	}
 	return nil
 }
